@@ -201,7 +201,9 @@ async def run_session(rig, idx, where, cmds, k, results, uidmap, order_log):
     for j, c in enumerate(cmds):
         if c.startswith("APPEND "):
             box = c.split()[1]
-            m = msg_for_append(k, idx * 10 + j)
+            # content id by the ordinal of this APPEND among the session's APPENDs
+            # (the same in the step-split reference variant, whose lists are longer)
+            m = msg_for_append(k, idx * 10 + sum(1 for x in cmds[:j] if x.startswith("APPEND ")))
             r = await s.cmd(b"APPEND " + box.encode() + b" {%d+}\r\n" % len(m) + m)
         else:
             r = await s.cmd(c)
@@ -266,7 +268,7 @@ async def one_run(loop, ctx, cmdset, mode, order=None):
                 s = rig.sessions_by_idx[idx]
                 if c.startswith("APPEND "):
                     box = c.split()[1]
-                    m = msg_for_append(k, idx * 10 + pos[idx] - 1)
+                    m = msg_for_append(k, idx * 10 + sum(1 for x in cmds[: pos[idx] - 1] if x.startswith("APPEND ")))
                     r = await s.cmd(b"APPEND " + box.encode() + b" {%d+}\r\n" % len(m) + m)
                 elif c.startswith("XREAD "):
                     # documented step 1 of COPY/MOVE: read the source
@@ -402,25 +404,44 @@ def explore(spec, k, cmdset, counts, scratch, nsched, systematic):
     sm = with_split_moves(cmdset)
     if sm is not None:
         variants.append(sm)
+    remaining = []  # (variant, order) not yet run: the reference set is completed on demand
+
+    def run_ref(var, order):
+        d = fresh()
+        try:
+            res, fs, info = run_case(lambda loop: one_run(loop, ctx, var, "sequential", order), seed=1, wall_budget=60)
+            allowed[freeze(res, fs)] = order
+            counts["reference_runs"] += 1
+        except Exception as e:
+            counts["reference_failed"] += 1
+        finally:
+            shutil.rmtree(d, ignore_errors=True)
+
     for var in variants:
         orders = sequential_orders(var, False)
         if len(orders) > 60:
             r0 = rng(spec["seed"], "c10ord", k)
-            orders = r0.sample(orders, 60)
+            r0.shuffle(orders)
+            remaining += [(var, o) for o in orders[60:]]
+            orders = orders[:60]
             counts["reference_orders_sampled"] += 1
         for order in orders:
-            d = fresh()
-            try:
-                res, fs, info = run_case(lambda loop: one_run(loop, ctx, var, "sequential", order), seed=1, wall_budget=60)
-                allowed[freeze(res, fs)] = order
-                counts["reference_runs"] += 1
-            except Exception as e:
-                counts["reference_failed"] += 1
-            finally:
-                shutil.rmtree(d, ignore_errors=True)
+            run_ref(var, order)
+
+    def complete_reference_until(fr, budget=700):
+        """The observed outcome is not among the sampled sequential orders:
+        run the remaining ones until it is found or none is left."""
+        n = 0
+        while remaining and fr not in allowed and n < budget:
+            var, order = remaining.pop()
+            run_ref(var, order)
+            n += 1
+        counts["reference_runs_on_demand"] += n
+        return fr in allowed
     sched_hashes = set()
     outcomes_seen = set()
     violations = []
+    inconclusive = []
 
     def run_sched(seed, strategy, replay=None):
         d = fresh()
@@ -456,14 +477,26 @@ def explore(spec, k, cmdset, counts, scratch, nsched, systematic):
                         problems.append(("command-not-completed", f"session {i}: {o}; log={info['log']}"))
             if info["closed"]:
                 problems.append(("connection-dropped", f"{info['closed']}; log={info['log']}"))
-            if not problems and fr not in allowed:
+            if not problems and fr not in allowed and remaining and complete_reference_until(fr):
+                pass
+            elif not problems and fr not in allowed and remaining:
+                inconclusive.append(f"observed outcome not among {len(allowed)} sequential outcomes, but {len(remaining)} sequential orders were not run")
+            elif not problems and fr not in allowed:
                 # nearest allowed outcome for the witness
                 best = None
                 for a in allowed:
                     score = sum(1 for x, y in zip(a[0], fr[0]) if x == y) + (2 if a[1] == fr[1] else 0)
                     if best is None or score > best[0]:
                         best = (score, a)
-                problems.append(("not-linearizable", f"observed outcomes {fr[0]} final {fr[1]}; closest sequential order {allowed.get(best[1]) if best else None} gives outcomes {best[1][0] if best else None} final {best[1][1] if best else None}"))
+                # which sessions' outcomes differ from *every* sequential outcome with the same final state
+                same_final = [a for a in allowed if a[1] == fr[1]]
+                differing = None
+                if same_final:
+                    differing = min((sorted(i for (i, x), (_, y) in zip(a[0], fr[0]) if x != y) for a in same_final), key=len)
+                problems.append(("not-linearizable", f"observed outcomes {fr[0]} final {fr[1]}; closest sequential order {allowed.get(best[1]) if best else None} gives outcomes {best[1][0] if best else None} final {best[1][1] if best else None}",
+                                 {"final_state_is_sequential": bool(same_final), "sessions_differing": differing,
+                                  "observed_of_differing": [list(map(list, dict(fr[0]).get(i, ()))) for i in (differing or [])],
+                                  "closest_of_differing": [list(map(list, dict(best[1][0]).get(i, ()))) for i in (differing or [])] if best else None}))
             if problems:
                 violations.append((problems, list(loop.trace)[:400], seed, strategy.__name__))
             return loop
@@ -505,7 +538,9 @@ def explore(spec, k, cmdset, counts, scratch, nsched, systematic):
     if violations:
         problems, trace, seed, strat = violations[0]
         cases.append(Case.make(f"set{k}", VIOLATED, spec=dict(spec, scripts=[k]), nontrivial=True, key=key, sample=sample,
-                               witness={"kind": problems[0][0], "detail": problems[0][1][:1500], "all": [p[0] for p in problems], "commands": cmdset, "schedule": trace[:200], "seed": seed, "strategy": strat}))
+                               witness={"kind": problems[0][0], "detail": problems[0][1][:1500], "all": [p[0] for p in problems], "data": (problems[0][2] if len(problems[0]) > 2 else {}), "commands": cmdset, "schedule": trace[:200], "seed": seed, "strategy": strat}))
+    elif inconclusive:
+        cases.append(Case.make(f"set{k}", INCONCLUSIVE, spec=dict(spec, scripts=[k]), reason=inconclusive[0], sample=sample))
     else:
         cases.append(Case.make(f"set{k}", HELD, spec=dict(spec, scripts=[k]), nontrivial=overlap and len(cmdset) >= 2, key=key, sample=sample))
     return cases
@@ -549,6 +584,27 @@ def replay_specs(rp):
 
 
 def classify(w):
+    cmds = w.get("commands") or []
+    flat = [(wh, c) for wh, cs in cmds for c in cs]
+    detail = w.get("detail") or ""
+    renamed = [c.split()[1] for _, c in flat if c.startswith("RENAME ")]
+    removed = [c.split()[1] for _, c in flat if c.startswith(("DELETE ", "RENAME "))]
+    if w.get("kind") in ("connection-dropped", "command-not-completed") and renamed and set(w.get("all") or []) <= {"connection-dropped", "command-not-completed"}:
+        # a command that names the mailbox (COPY/MOVE destination, STATUS, SELECT) or works in it while RENAME moves it away
+        if re.search(r"No such file or directory: '[^']*/mail/(%s)" % "|".join(re.escape(x) for x in renamed), detail) or re.search(r"lock_folder", detail):
+            return "C10-rename-races-command-using-the-mailbox"
+    if w.get("kind") == "not-linearizable" and removed and (w.get("data") or {}).get("final_state_is_sequential"):
+        d = w["data"]
+        idxs = d.get("sessions_differing") or []
+        # only sessions that have the removed mailbox selected differ, and only by REFUSED where a sequential order says OK
+        if idxs and all(cmds[i][0] in removed for i in idxs):
+            ok = True
+            for obs, clo in zip(d.get("observed_of_differing") or [], d.get("closest_of_differing") or []):
+                for o, c in zip(obs, clo):
+                    if o != c and not (o and o[0] == "REFUSED"):
+                        ok = False
+            if ok:
+                return "C10-queued-command-refused-when-its-mailbox-is-removed"
     return None
 
 
